@@ -108,6 +108,9 @@ def gen_cases(tier, seed):
     # UNICODE strings that begin / end with byte-order-mark code points
     for sval in ("\ufeffabc", "\ufffeab", "ab\ufeff", "\ufeff", "\ufffe\ufeffx"):
         ops += triple(rng, enc.USTR, sval)
+    # VISIBLE_STRING values that end in blanks / consist of blanks only
+    for sval in ("> ", "a  ", " ", "  x  ", "tab\t"):
+        ops += triple(rng, enc.VSTR, sval)
     # both signed zeros (and other pairs that compare equal: 1 / 1.0 / True) one after the other
     for dt in (enc.REAL32, enc.REAL64):
         for val in (0.0, -0.0, 0.0, -0.0, 1.0, -1.0, -0.0):
@@ -137,7 +140,7 @@ def gen_cases(tier, seed):
                         o += triple(rng, *rng.choice(big))
                 ops[str(n)] = o
             cases.append({"mode": mode, "nodes": nodes, "ops": ops, "noise": r % 2 == 0,
-                          "seed": rng.randrange(1 << 30)})
+                          "seed": rng.randrange(1 << 30), "slow_store": r % 3 == 1})
     return cases
 
 
